@@ -4,6 +4,7 @@ import SparseSpace.Lemmas.RefTreeCoarsen
 import SparseSpace.Lemmas.RefTreeInit
 import SparseSpace.Model.DimWise
 import SparseSpace.Lemmas.Combi
+import SparseSpace.Lemmas.DimWiseRaise
 /-!
 # One `refine()` call of the dimension-wise strategy keeps the whole state well formed (C06, used by C03)
 -/
@@ -91,7 +92,7 @@ theorem getD_eq_of_getElem? {α : Type} {l : List α} {d : Nat} {x y : α} (h : 
 
 theorem postDim_spec (a b : List Rat) (lmax0 : Int) (st : DW) (d : Nat) (hd : d < st.dim)
     (h : DWInv a b lmax0 d st) :
-    DWInv a b lmax0 (d + 1) (st.postDim d).1 ∧ (st.postDim d).1.dim = st.dim := by
+    DWInv a b lmax0 (d + 1) (st.postDim d).1 ∧ (st.postDim d).1.dim = st.dim ∧ (st.postDim d).2 = true := by
   have hdc : d < st.m.conts.length := by rw [h.lconts]; exact hd
   have hdl : d < st.lmax.length := by rw [h.llmax]; exact hd
   obtain ⟨c, hc⟩ : ∃ c, st.m.conts[d]? = some c := ⟨_, List.getElem?_eq_getElem hdc⟩
@@ -101,7 +102,16 @@ theorem postDim_spec (a b : List Rat) (lmax0 : Int) (st : DW) (d : Nat) (hd : d 
     unfold DW.postDim
     simp only [hc, hl]
     split <;> rfl
-  refine ⟨?_, hdim⟩
+  have hflag : (st.postDim d).2 = true := by
+    unfold DW.postDim
+    simp only [hc, hl]
+    split
+    · have hsch := h.scheme
+      have := raiseFuel_enough (st.lmax.set d (lm + updateDim (setCoarsening lm c.objs))) st.lmin st.cs hsch.1 hsch.2.2
+      rw [hsch.2.1] at this
+      exact this
+    · rfl
+  refine ⟨?_, hdim, hflag⟩
   unfold DW.postDim
   simp only [hc, hl]
   have hspec := coarsening_update lm c.objs
@@ -170,13 +180,14 @@ theorem postDim_spec (a b : List Rat) (lmax0 : Int) (st : DW) (d : Nat) (hd : d 
 
 theorem postDims_spec (a b : List Rat) (lmax0 : Int) : ∀ (n k : Nat) (st : DW), k + n = st.dim →
     DWInv a b lmax0 k st →
-    DWInv a b lmax0 (k + n) (DW.postDims st (List.range' k n)).1 ∧ (DW.postDims st (List.range' k n)).1.dim = st.dim
+    DWInv a b lmax0 (k + n) (DW.postDims st (List.range' k n)).1 ∧ (DW.postDims st (List.range' k n)).1.dim = st.dim ∧
+      (DW.postDims st (List.range' k n)).2 = true
   | 0, k, st, _, h => by simpa [DW.postDims] using h
   | n+1, k, st, hk, h => by
-    obtain ⟨h1, h2⟩ := postDim_spec a b lmax0 st k (by omega) h
-    obtain ⟨h3, h4⟩ := postDims_spec a b lmax0 n (k + 1) (st.postDim k).1 (by rw [h2]; omega) h1
+    obtain ⟨h1, h2, h2'⟩ := postDim_spec a b lmax0 st k (by omega) h
+    obtain ⟨h3, h4, h4'⟩ := postDims_spec a b lmax0 n (k + 1) (st.postDim k).1 (by rw [h2]; omega) h1
     simp only [List.range'_succ, DW.postDims]
-    exact ⟨by rw [show k + (n + 1) = k + 1 + n by omega]; exact h3, by rw [h4, h2]⟩
+    exact ⟨by rw [show k + (n + 1) = k + 1 + n by omega]; exact h3, by rw [h4, h2], by rw [h2', h4']; rfl⟩
 
 theorem postDim_lmin (st : DW) (d : Nat) : (st.postDim d).1.lmin = st.lmin := by
   unfold DW.postDim
@@ -242,7 +253,7 @@ whose benefit reaches `margin · max benefit`, each once (strictly ascending ord
 theorem step_wf (a b : List Rat) (lmax0 : Int) (st : DW) (h : DWWF a b lmax0 st)
     (bens : List (List Rat)) (margin : Rat) (rebalancing : Bool) (dec : Nat → Nat → Nat → Bool) :
     ∃ out, st.step bens margin rebalancing dec = some out ∧ DWWF a b lmax0 out.st ∧ out.st.dim = st.dim ∧
-      out.st.lmin = st.lmin ∧
+      out.st.lmin = st.lmin ∧ out.raiseDone = true ∧
       out.refined.Pairwise posLt ∧
       (∀ d i, (d, i) ∈ out.refined ↔ ∃ c : Cont, st.m.conts[d]? = some c ∧ i < c.objs.length ∧
           Pb (bens.getD d []) (maxBenefit bens * margin) i = true) := by
@@ -299,14 +310,14 @@ theorem step_wf (a b : List Rat) (lmax0 : Int) (st : DW) (h : DWWF a b lmax0 st)
   refine ⟨{ st := (DW.postDims { st with m := { m1 with conts := conts } } (List.range' 0 st.dim)).1,
             refined := ps, cmps := cmps,
             raiseDone := (DW.postDims { st with m := { m1 with conts := conts } } (List.range' 0 st.dim)).2 },
-    ?_, ?_, ?_, ?_, hpw, hmem⟩
+    ?_, ?_, ?_, ?_, hp.2.2, hpw, hmem⟩
   · unfold DW.step
     simp only [hr, hrb, hrange]
   · simp only [DWWF]
     have := hp.1
     simp only [Nat.zero_add] at this
-    rw [hp.2]; exact this
-  · exact hp.2
+    rw [hp.2.1]; exact this
+  · exact hp.2.1
   · exact postDims_lmin _ _
 
 /-- the initial state is well formed -/
